@@ -136,6 +136,7 @@ def get_atomic_sequence(xsd_type: Optional[XsdTypeProtocol],
             nonlocal namespaces
             if namespaces is None:
                 namespaces = {}
+            s = s.strip()  # the whiteSpace facet of xs:QName is 'collapse'
             if ':' not in s:
                 return value.__class__(namespaces.get(''), s)
             else:
